@@ -26,15 +26,13 @@ Definition short_value (v : value) : Prop :=
   match v with VScal c => short c | VSeq l => Forall short l | VStr s => Z.of_nat (length s) <= string_width end.
 Definition short_op (o : op) : Prop :=
   match o with
-  | Create _ _ _ _ (Some c) => short c
-  | SetItem _ _ v => short_value v
-  | Update _ _ _ x => short x
+  | Create _ _ _ _ (Some c) => short c         (* a custom default: the sparse read of an unset scalar entry returns it as it is *)
   | _ => True
   end.
 
-Lemma store_short t c : short c -> store t c = cast t c.
+Lemma store_short t c : kind_of c = Some t -> short c -> store t c = cast t c.
 Proof.
-  intros H. unfold store. destruct t, c; try reflexivity. simpl in *. unfold trunc.
+  intros K H. unfold store. destruct t, c; simpl in K; try discriminate K; try reflexivity. simpl in *. unfold trunc.
   rewrite firstn_all2; [reflexivity|lia].
 Qed.
 
@@ -88,8 +86,7 @@ Definition arel (s d : state) (a : Z) : Prop :=
   | None, None => True
   | Some x, Some y =>
       aty x = aty y /\ asz x = asz y /\
-      (exists m, ast x = Sparse m /\ (forall k, In k (map fst m) -> 0 <= k < sn s) /\
-                 (forall k c, lookup k m = Some (SScal c) -> short c)) /\
+      (exists m, ast x = Sparse m /\ forall k, In k (map fst m) -> 0 <= k < sn s) /\
       (exists ne st rows, ast y = Dense ne st rows) /\
       default_row (hp s) x = default_row (hp d) y /\
       unset_read (hp s) x = default_row (hp s) x /\
@@ -153,14 +150,15 @@ Proof.
   rewrite <- P. destruct (match lookup a (attrs s) with Some _ => create_keeps_existing | None => false end).
   { intros _ _. simpl. split; [reflexivity|exact HR]. }
   assert (V : (exists e, mk_default (hp s) t k df = inl e /\ mk_default (hp d) t k df = inl e) \/
-              (exists c, short c /\ mk_default (hp s) t k df = inr (hp s, DScal c) /\ mk_default (hp d) t k df = inr (hp d, DScal c)) \/
+              (exists c, short c /\ kind_of c = Some t /\ mk_default (hp s) t k df = inr (hp s, DScal c) /\ mk_default (hp d) t k df = inr (hp d, DScal c)) \/
               (k <> 1 /\ mk_default (hp s) t k df = inr (hp s ++ [mkcell t (repeat (type_default t) (Z.to_nat k))], DCell (length (hp s))) /\
                mk_default (hp d) t k df = inr (hp d ++ [mkcell t (repeat (type_default t) (Z.to_nat k))], DCell (length (hp d))))).
   { unfold mk_default. destruct df as [c|].
-    - destruct (kind_of c) as [td|]; [|left; eauto]. destruct (default_type_bad td t); [left; eauto|right; left; eauto].
-    - destruct (k =? 1) eqn:K1; [right; left; exists (type_default t); split; [apply type_default_short|auto]|right; right].
+    - destruct (kind_of c) as [td|] eqn:Kc; [|left; eauto]. destruct (default_type_bad td t) eqn:Db; [left; eauto|right; left].
+      exists c. split; [exact Hsh|]. split; [|auto]. unfold default_type_bad in Db. destruct td, t; simpl in Db; try discriminate Db; exact Kc.
+    - destruct (k =? 1) eqn:K1; [right; left; exists (type_default t); split; [apply type_default_short|split; [destruct t; reflexivity|auto]]|right; right].
       split; [lia|auto]. }
-  destruct V as [[e [V1 V2]]|[[c [Sc [V1 V2]]]|[K1 [V1 V2]]]]; rewrite V1, V2; simpl.
+  destruct V as [[e [V1 V2]]|[[c [Sc [Kc [V1 V2]]]]|[K1 [V1 V2]]]]; rewrite V1, V2; simpl.
   - intros _ _. split; [reflexivity|exact HR].
   - intros Is' Id'. split; [reflexivity|]. split; [exact C|]. split; [exact N|]. split; [exact Is'|]. split; [exact Id'|].
     intros b. destruct (Z.eq_dec b a) as [E|NE].
@@ -170,8 +168,8 @@ Proof.
       simpl in Okx, Oky.
       assert (UR : unset_read (hp s) (mkattr t k (DScal c) (Sparse [])) = default_row (hp s) (mkattr t k (DScal c) (Sparse []))).
       { unfold unset_read, default_row. simpl. destruct (k >? 1) eqn:K1; [reflexivity|].
-        assert (k = 1) by lia. subst k. simpl. now rewrite store_short. }
-      split; [reflexivity|]. split; [reflexivity|]. split; [exists []; split; [reflexivity|split; [intros ? []|intros ? ? ?; discriminate]]|].
+        assert (k = 1) by lia. subst k. simpl. now rewrite (store_short t c Kc Sc). }
+      split; [reflexivity|]. split; [reflexivity|]. split; [exists []; split; [reflexivity|intros ? []]|].
       split; [unfold new_storage; eauto|]. split; [reflexivity|]. split; [exact UR|].
       intros j Hj. erewrite rd_sparse_unset; [|exact Okx|reflexivity|reflexivity].
       erewrite rd_dense; [|exact Oky|reflexivity|lia].
@@ -187,7 +185,7 @@ Proof.
       simpl in Okx, Oky. pose proof Okx as [_ [[K2 _] _]]. simpl in K2.
       assert (UR : forall h st, unset_read h (mkattr t k (DCell (length (hp s))) (Sparse st)) = default_row h (mkattr t k (DCell (length (hp s))) (Sparse st))).
       { intros h st. unfold unset_read. simpl. assert (Q : k >? 1 = true) by lia. now rewrite Q. }
-      split; [reflexivity|]. split; [reflexivity|]. split; [exists []; split; [reflexivity|split; [intros ? []|intros ? ? ?; discriminate]]|].
+      split; [reflexivity|]. split; [reflexivity|]. split; [exists []; split; [reflexivity|intros ? []]|].
       split; [unfold new_storage; eauto|]. split; [rewrite !default_row_fresh; reflexivity|]. split; [apply UR|].
       intros j Hj. erewrite rd_sparse_unset; [|exact Okx|reflexivity|reflexivity].
       erewrite rd_dense; [|exact Oky|reflexivity|lia].
@@ -200,11 +198,11 @@ Qed.
 
 (* ------------------------------------------------------------------ set *)
 Lemma sim_set s d a k v :
-  R s d -> 0 <= k < sn s -> short_value v ->
+  R s d -> 0 <= k < sn s ->
   snd (step s (SetItem a k v)) = snd (step d (SetItem a k v)) /\
   R (fst (step s (SetItem a k v))) (fst (step d (SetItem a k v))).
 Proof.
-  intros HR Hk Hsv. pose proof HR as [C [N [Is [Id HA]]]].
+  intros HR Hk. pose proof HR as [C [N [Is [Id HA]]]].
   pose proof (inv_step s (SetItem a k v) Is I) as Is'.
   pose proof (inv_step d (SetItem a k v) Id I) as Id'.
   destruct (step s (SetItem a k v)) as [s' ws] eqn:Es. destruct (step d (SetItem a k v)) as [d' wd] eqn:Ed.
@@ -214,18 +212,22 @@ Proof.
   pose proof (HA a) as Ha. unfold arel in Ha.
   destruct (lookup a (attrs s)) as [x|] eqn:Lx; destruct (lookup a (attrs d)) as [y|] eqn:Ly; try contradiction.
   2:{ inversion Es; inversion Ed; subst. split; [reflexivity|]. exact HR. }
-  destruct Ha as [T [Z0 [[m [Sx [Kx Sh]]] [[ne [st [rows Sy]]] [DF [UR RD]]]]]].
+  destruct Ha as [T [Z0 [[m [Sx Kx]] [[ne [st [rows Sy]]] [DF [UR RD]]]]]].
   pose proof Id as [_ [J1 _]]. pose proof (J1 _ _ Ly) as Oky. pose proof Oky as [_ [_ B]]. rewrite Sy in B.
   destruct B as [B1 _]. subst ne.
   rewrite Sx in Es. rewrite Sy in Ed. rewrite in_range_not_oob in Ed by lia.
   rewrite <- validate_same, <- T, <- Z0 in Ed.
   destruct (sparse_validate (aty x) (asz x) v) as [e|[isv l]] eqn:V.
   { inversion Es; inversion Ed; subst. split; [reflexivity|]. exact HR. }
+  unfold sparse_vec_uses_attr_dtype, sparse_scal_converted in Es.
+  destruct (existsb (overflows (aty x)) l) eqn:Ov.
+  { assert (Ws : ws = OErr EOverflow /\ s' = tick s) by (destruct isv; inversion Es; auto).
+    destruct Ws; subst. inversion Ed; subst. split; [reflexivity|]. exact HR. }
   assert (Ws : ws = OOk) by (destruct isv; inversion Es; reflexivity).
   assert (Wd : wd = OOk) by (inversion Ed; reflexivity).
   subst ws wd. split; [reflexivity|].
-  destruct (set_laws _ _ _ _ _ Is Es0) as [x0 [isv0 [l0 [Lx0 [V0 [Rk [Fr Sn]]]]]]].
-  destruct (set_laws _ _ _ _ _ Id Ed0) as [y0 [isv1 [l1 [Ly0 [V1 [Rk1 [Fr1 Sn1]]]]]]].
+  destruct (set_laws _ _ _ _ _ Is Es0) as [x0 [isv0 [l0 [Lx0 [V0 [_ [Rk [Fr Sn]]]]]]]].
+  destruct (set_laws _ _ _ _ _ Id Ed0) as [y0 [isv1 [l1 [Ly0 [V1 [_ [Rk1 [Fr1 Sn1]]]]]]]].
   rewrite Lx in Lx0. inversion Lx0; subst x0. rewrite Ly in Ly0. inversion Ly0; subst y0.
   rewrite V in V0. inversion V0; subst isv0 l0. rewrite <- T, <- Z0, V in V1. inversion V1; subst isv1 l1.
   clear Lx0 Ly0 V0 V1.
@@ -237,20 +239,14 @@ Proof.
   intros b. destruct (Z.eq_dec b a) as [E|NE].
   - subst b. unfold arel.
     assert (exists x', lookup a (attrs s') = Some x' /\ aty x' = aty x /\ asz x' = asz x /\ adef x' = adef x /\
-                       exists m', ast x' = Sparse m' /\ (forall j, In j (map fst m') -> j = k \/ In j (map fst m)) /\
-                                  (forall j c, lookup j m' = Some (SScal c) -> short c)) as [x' [Lx' [T1 [Z1 [D1 [m' [Sx' [Kx' Sh']]]]]]]].
-    { assert (SL : isv = false -> short (hd CX l)).
-      { intros Ei. subst isv. pose proof Is as [_ [I1 _]]. destruct (I1 _ _ Lx) as [A1 _].
-        pose proof V as V'. apply sparse_validate_inr in V'; [|exact A1]. destruct V' as [_ [V1 _]].
-        pose proof (comps_short _ _ _ V1 Hsv) as Fs. destruct l; simpl; [exact I|]. now inversion Fs. }
-      destruct isv; inversion Es; subst s'; simpl; rewrite lookup_put_same; eexists; (split; [reflexivity|]); simpl;
-        repeat split; auto; eexists; (split; [reflexivity|]); (split; [intros j; apply upsert_keys_incl|]);
-          intros j c; rewrite lookup_upsert; destruct (j =? k); try (apply Sh); intros Q; inversion Q; subst; auto. }
+                       exists m', ast x' = Sparse m' /\ forall j, In j (map fst m') -> j = k \/ In j (map fst m)) as [x' [Lx' [T1 [Z1 [D1 [m' [Sx' Kx']]]]]]].
+    { destruct isv; inversion Es; subst s'; simpl; rewrite lookup_put_same; eexists; (split; [reflexivity|]); simpl;
+        repeat split; auto; eexists; (split; [reflexivity|]); intros j; apply upsert_keys_incl. }
     assert (exists y', lookup a (attrs d') = Some y' /\ aty y' = aty y /\ asz y' = asz y /\ adef y' = adef y /\
                        exists ne' st' rows', ast y' = Dense ne' st' rows') as [y' [Ly' [T2 [Z2 [D2 Sy']]]]].
     { inversion Ed; subst d'; simpl; rewrite lookup_put_same; eexists; (split; [reflexivity|]); simpl; repeat split; eauto. }
     rewrite Lx', Ly'. split; [congruence|]. split; [congruence|]. split.
-    { exists m'. split; [exact Sx'|]. split; [|exact Sh']. intros j Hj. rewrite Sn. destruct (Kx' _ Hj); [lia|auto]. }
+    { exists m'. split; [exact Sx'|]. intros j Hj. rewrite Sn. destruct (Kx' _ Hj); [lia|auto]. }
     split; [exact Sy'|]. split.
     { pose proof Is as [_ [I1 _]]. destruct (reads_pres _ _ _ _ (I1 _ _ Lx) Hs) as [P1 _].
       destruct (reads_pres _ _ _ _ Oky Hd) as [P2 _].
@@ -264,11 +260,7 @@ Proof.
     assert (Q1 : rd s' a j = rd_attr (hp s') x' j) by (unfold rd; now rewrite Lx').
     assert (Q2 : rd d' a j = rd_attr (hp d') y' j) by (unfold rd; now rewrite Ly').
     rewrite <- Q1, <- Q2. destruct (Z.eq_dec j k) as [Ej|Nj].
-    + subst j. rewrite Rk, Rk1. f_equal. unfold written. rewrite Sx, Sy, <- T.
-      destruct isv; [reflexivity|]. apply map_ext_in. intros c Hc. symmetry. apply store_short.
-      pose proof Is as [_ [I1 _]]. destruct (I1 _ _ Lx) as [A1 _].
-      apply sparse_validate_inr in V; [|exact A1]. destruct V as [_ [V1 _]].
-      pose proof (comps_short _ _ _ V1 Hsv) as Fs. rewrite Forall_forall in Fs. now apply Fs.
+    + subst j. rewrite Rk, Rk1. unfold written. now rewrite T.
     + rewrite Fr, Fr1 by congruence. unfold rd. rewrite Lx, Ly. now apply RD.
   - apply (arel_frame s d s' d' b Is Id (HA b)); auto.
     + destruct isv; inversion Es; subst s'; simpl; now rewrite lookup_put_other.
@@ -309,7 +301,7 @@ Proof.
   split; [exact C|]. split; [simpl; lia|]. split; [exact Is'|]. split; [exact Id'|].
   intros b. pose proof (HA b) as Hb. unfold arel in *. simpl. rewrite !lookup_map_vals.
   destruct (lookup b (attrs s)) as [x|] eqn:Lx; destruct (lookup b (attrs d)) as [y|] eqn:Ly; try contradiction; [|exact I].
-  simpl. destruct Hb as [T [Z0 [[m [Sx [Kx Sh]]] [[ne [st [rows Sy]]] [DF [UR RD]]]]]].
+  simpl. destruct Hb as [T [Z0 [[m [Sx Kx]] [[ne [st [rows Sy]]] [DF [UR RD]]]]]].
   pose proof Is as [_ [I1 _]]. pose proof Id as [Nn [J1 _]].
   pose proof (I1 _ _ Lx) as Okx. pose proof (J1 _ _ Ly) as Oky.
   destruct Id' as [_ [J1' _]]. simpl in J1'.
@@ -318,7 +310,7 @@ Proof.
   pose proof (J1' _ _ Ly') as Oky'. clear J1' Ly'.
   unfold expand_attr in *. rewrite Sx. rewrite Sy in *. simpl.
   split; [exact T|]. split; [exact Z0|]. split.
-  { exists m. split; [exact Sx|]. split; [|exact Sh]. intros j Hj. specialize (Kx j Hj). lia. }
+  { exists m. split; [exact Sx|]. intros j Hj. specialize (Kx j Hj). lia. }
   split; [eauto|]. split; [exact DF|]. split; [exact UR|].
   intros j Hj.
   pose proof Oky as [_ [_ B]]. rewrite Sy in B. destruct B as [B1 [B2 B3]]. subst ne.
@@ -341,7 +333,7 @@ Proof.
   revert Is' Id'. unfold do_clear_attr. pose proof (HA a) as Ha. unfold arel in Ha.
   destruct (lookup a (attrs s)) as [x|] eqn:Lx; destruct (lookup a (attrs d)) as [y|] eqn:Ly; try contradiction.
   2:{ intros _ _. split; [reflexivity|exact HR]. }
-  destruct Ha as [T [Z0 [[m [Sx [Kx Sh]]] [[ne [st [rows Sy]]] [DF [UR RD]]]]]]. rewrite Sx, Sy. simpl.
+  destruct Ha as [T [Z0 [[m [Sx Kx]] [[ne [st [rows Sy]]] [DF [UR RD]]]]]]. rewrite Sx, Sy. simpl.
   intros Is' Id'. split; [reflexivity|]. split; [exact C|]. split; [exact N|]. split; [exact Is'|]. split; [exact Id'|].
   intros b. destruct (Z.eq_dec b a) as [E|NE].
   - subst b. unfold arel. simpl. rewrite !lookup_put_same. simpl.
@@ -350,7 +342,7 @@ Proof.
     simpl in Okx, Oky. pose proof Oky as [_ [_ B]]. simpl in B. destruct B as [B1 _].
     assert (UR' : unset_read (hp s) (set_storage x (Sparse [])) = default_row (hp s) x).
     { rewrite <- UR. unfold unset_read. simpl. now rewrite Sx. }
-    split; [exact T|]. split; [exact Z0|]. split; [exists []; split; [reflexivity|split; [intros ? []|intros ? ? ?; discriminate]]|].
+    split; [exact T|]. split; [exact Z0|]. split; [exists []; split; [reflexivity|intros ? []]|].
     split; [eauto|]. split; [exact DF|]. split; [exact UR'|].
     intros j Hj. erewrite rd_sparse_unset; [|exact Okx|reflexivity|reflexivity].
     erewrite rd_dense; [|exact Oky|reflexivity|lia].
@@ -415,7 +407,7 @@ Proof.
   pose proof (HA a) as Ha. unfold arel in Ha.
   destruct (lookup a (attrs s)) as [x|] eqn:Lx; destruct (lookup a (attrs d)) as [y|] eqn:Ly; try contradiction.
   2:{ reflexivity. }
-  destruct Ha as [T [Z0 [[m [Sx [Kx Sh]]] [[ne [st [rows Sy]]] [DF [UR RD]]]]]]. rewrite Sx, Sy.
+  destruct Ha as [T [Z0 [[m [Sx Kx]] [[ne [st [rows Sy]]] [DF [UR RD]]]]]]. rewrite Sx, Sy.
   pose proof Is as [Nn [I1 _]]. pose proof Id as [_ [J1 _]].
   pose proof (I1 _ _ Lx) as Okx. pose proof (J1 _ _ Ly) as Oky.
   pose proof Okx as [_ [_ A3]]. rewrite Sx in A3. destruct A3 as [ND A3].
@@ -431,7 +423,7 @@ Proof.
   destruct (lookup (Z.of_nat i) m) as [sv|] eqn:L.
   - destruct (rd_sparse_set _ _ _ _ _ _ Okx Sx L) as [row [R1 [R2 R3]]]. rewrite R1 in RD. inversion RD; subst.
     specialize (A3 _ _ L). destruct sv as [c|id]; simpl in *.
-    + inversion R2. rewrite A3. simpl. rewrite store_short; [reflexivity|]. eapply Sh; eauto.
+    + inversion R2. destruct A3 as [A3 Fx]. rewrite A3. simpl. rewrite <- Fx at 2. now rewrite cast_store.
     + destruct A3 as [_ [cl [Hc [_ [Hk Hf]]]]]. rewrite Hc in *. inversion R2. unfold fixed in Hf. rewrite Hk in Hf.
       symmetry. now apply fixed_cast_store.
   - rewrite (rd_sparse_unset _ _ _ _ _ Okx Sx L) in RD. inversion RD. rewrite nth_repeat_in by lia. congruence.
@@ -470,7 +462,7 @@ Proof.
     pose proof (HA a) as H. unfold arel in H. change (attrs (tick s)) with (attrs s). change (attrs (tick d)) with (attrs d).
     destruct (lookup a (attrs s)), (lookup a (attrs d)); try contradiction; reflexivity.
   - (* SetItem *)
-    destruct (sim_set s d a key v HR Ha Hsh) as [W HR']. split; [now rewrite W|]. split; [exact HR'|].
+    destruct (sim_set s d a key v HR Ha) as [W HR']. split; [now rewrite W|]. split; [exact HR'|].
     destruct (step s (SetItem a key v)) as [s' w] eqn:E. simpl.
     unfold step in E. simpl in E. unfold do_set in E.
     repeat (match type of E with context [match ?x with _ => _ end] => destruct x end); inversion E; reflexivity.
@@ -567,18 +559,18 @@ Proof.
 Qed.
 
 Lemma sim_update s d a k c x0 :
-  R s d -> own s -> 0 <= k < sn s -> short x0 -> upd_guard s a k ->
+  R s d -> own s -> 0 <= k < sn s -> upd_guard s a k ->
   snd (do_update s a k c x0) = snd (do_update d a k c x0) /\
   R (fst (do_update s a k c x0)) (fst (do_update d a k c x0)) /\
   (length (refs (fst (do_update s a k c x0))) - length (refs s) =
    length (refs (fst (do_update d a k c x0))) - length (refs d))%nat /\
   sn (fst (do_update s a k c x0)) = sn s.
 Proof.
-  intros HR Ow Hk Hx G. pose proof HR as [C [N [Is [Id HA]]]].
+  intros HR Ow Hk G. pose proof HR as [C [N [Is [Id HA]]]].
   pose proof (HA a) as Ha. unfold arel in Ha. unfold upd_guard in G. unfold do_update, do_get.
   destruct (lookup a (attrs s)) as [x|] eqn:Lx; destruct (lookup a (attrs d)) as [y|] eqn:Ly; try contradiction.
   2:{ simpl. split; [reflexivity|split; [exact HR|split; [lia|reflexivity]]]. }
-  destruct Ha as [T [Z0 [[m [Sx [Kx Sh]]] [[ne [st [rows Sy]]] [DF [UR RD]]]]]]. rewrite Sx in G |- *. rewrite Sy.
+  destruct Ha as [T [Z0 [[m [Sx Kx]] [[ne [st [rows Sy]]] [DF [UR RD]]]]]]. rewrite Sx in G |- *. rewrite Sy.
   pose proof Is as [Nn [I1 I2]]. pose proof Id as [_ [J1 J2]].
   pose proof (I1 _ _ Lx) as Okx. pose proof (J1 _ _ Ly) as Oky.
   pose proof Okx as [A1 [A2 A3]]. rewrite Sx in A3. destruct A3 as [ND A3].
@@ -606,6 +598,8 @@ Proof.
   { apply Forall_app. split; [exact J2|]. constructor; [|constructor]. simpl. lia. }
   pose proof (R_with_refs s d _ _ HR RS RDn) as HR1.
   destruct ((c <? 0) || (c >=? Z.of_nat (length (znth_row rows k)))) eqn:Cr.
+  { simpl. split; [reflexivity|]. split; [exact HR1|]. split; [rewrite !app_length; simpl; lia|reflexivity]. }
+  rewrite <- T. destruct (overflows (aty x) x0).
   { simpl. split; [reflexivity|]. split; [exact HR1|]. split; [rewrite !app_length; simpl; lia|reflexivity]. }
   rewrite N1, N2. cbn [fst snd]. split; [reflexivity|].
   set (s1 := with_refs s (refs s ++ [RObj id])) in *. set (d1 := with_refs d (refs d ++ [RRow a st k])) in *.
@@ -727,6 +721,7 @@ Proof.
   - unfold do_update. pose proof (do_get_corner t a key) as G. destruct (do_get t a key) as [s1 w1]. simpl in G.
     destruct w1; try exact G. destruct isvec; [|exact G].
     destruct ((c <? 0) || (c >=? Z.of_nat (length row))); [exact G|].
+    destruct (match lookup a (attrs t) with Some at_ => overflows (aty at_) x | None => false end); [exact G|].
     destruct (nth_error (refs s1) (length (refs t))) as [rf|]; [|exact G]. cbn [fst].
     destruct (mut_ref_fields s1 rf c x) as [Q _]. congruence.
   - unfold do_mut_arr. destruct (nth_error (refs t) r) as [[id|a st k|a st|]|]; try reflexivity.
@@ -780,7 +775,7 @@ Proof.
   subst o.
   (* Update *)
   simpl force. unfold step. simpl in *.
-  destruct (sim_update (tick s) (tick d) a key c x (R_tick _ _ HR) Ow Ha Hsh G) as [W [HR' [HLn Sz]]].
+  destruct (sim_update (tick s) (tick d) a key c x (R_tick _ _ HR) Ow Ha G) as [W [HR' [HLn Sz]]].
   split; [now rewrite W|]. split; [|split; [exact Sz|exact CN]].
   split; [exact HR'|]. split; [|exact Ow'].
   pose proof (do_get_mono (tick s) a key) as M1. pose proof (do_get_mono (tick d) a key) as M2.
@@ -831,12 +826,12 @@ Proof.
   vm_compute. intros H. discriminate H.
 Qed.
 
-(* 2. a string longer than the fixed width of the dense storage: the dense storage (and every as_array) cuts it,
-      the sparse scalar entry keeps the python string *)
+(* 2. a custom default string longer than the fixed width of the numpy storage: the dense storage (and every as_array)
+      cuts it, the sparse read of a never-written scalar entry returns the default object as it is *)
 Definition long_string : list Z := repeat 120 33.
 
 Definition wit_long : list op :=
-  [Append; Create 0 TString 1 false None; SetItem 0 0 (VStr long_string); GetItem 0 0].
+  [Append; Create 0 TString 1 false (Some (CS long_string)); GetItem 0 0].
 
 Theorem agree_long_strings_refuted :
   exists c h, Forall op_ok h /\ Forall shared_op h /\ well_addressed c 0 h /\ updates_hit_written (init c) h /\
